@@ -584,7 +584,8 @@ class MarkdownNormalizer(Renderer):
         children_content = self.render_children(element)
         # A multi-line (setext) heading becomes a one-line ATX heading: a soft line break
         # inside it would end the heading and start a paragraph.
-        children_content = re.sub(r"(?<!\\)\n", " ", children_content)
+        # (An even run of backslashes before the newline is escaped backslashes, not a hard break.)
+        children_content = re.sub(r"(?<!\\)((?:\\\\)*)\n", r"\1 ", children_content)
         # Runs of spaces collapse to one, as they do in wrapped paragraphs.
         children_content = re.sub(r"[ \t]{2,}", " ", children_content).strip()
         # A final run of `#` (after a space, or alone) would be read as the optional closing
@@ -596,7 +597,7 @@ class MarkdownNormalizer(Renderer):
         self._in_heading = False
         self._current_inline_text = ""
         # If heading ends with hard break, don't add extra newline
-        if children_content.endswith("\\"):
+        if (len(children_content) - len(children_content.rstrip("\\"))) % 2 == 1:
             result = f"{self._prefix}{'#' * element.level} {children_content}\n"
             self._prefix = self._second_prefix
             # Don't skip next blank line or suppress item break for hard breaks
